@@ -2,7 +2,7 @@
    Only statements, closed by `exact`, with Print Assumptions.  [R evs] is the state of the
    slice model (Keypairs/Model.v) after the event list evs, from a freshly started peer;
    every theorem quantifies over ALL event lists. *)
-From WG Require Import Base.Prelude Gen.Constants Keypairs.Model Keypairs.Spec Keypairs.Check Keypairs.Proofs.
+From WG Require Import Base.Prelude Gen.Constants Keypairs.Model Keypairs.Spec Keypairs.Check Keypairs.Proofs Keypairs.SpecProofs.
 Local Open Scope N_scope.
 
 (* The numbers the property text names, as the code has them now (nanoseconds). *)
@@ -219,16 +219,18 @@ Proof. exact at_most_two_at_once. Qed.
 Print Assumptions C07_at_most_two_at_once.
 
 (* The executable property [holdsb] (Keypairs/Spec.v, the one evaluated on the device's observed
-   traces) accepts the model's own behaviour on EVERY sequence of the property's event kinds up to
-   length 4 (slot names resolved against the state, plus Restart; 16 105 sequences), and of the extended alphabet
-   (extra ticks, spontaneous initiation, stale response, forged message under next / current, replay)
-   up to length 3 (5 220 sequences).  The thorough tier
-   evaluates length 6 (1 116 105 sequences) / 5 (1 118 481); the quick tier keeps this file cheap.  The unbounded statement is kept as a definition, not proved.  It needs
-   the harness's discipline (time moves in whole seconds, fewer than 10^9 events): [holdsb] sees ages
-   in whole seconds, which cannot tell 180 s - 1 ns from 179 s -- see C07_boundary_180 below. *)
-Definition C07_model_satisfies_spec_statement : Prop :=
-  forall evs, (forall d, In (Tick d) evs -> d mod sec = 0) -> N.of_nat (length evs) < sec ->
+   traces) accepts the model's own behaviour on EVERY event list in which time moves in whole seconds
+   (the harness's discipline; [holdsb] sees ages in whole seconds and cannot tell 180 s - 1 ns from
+   179 s, see C07_boundary_180 below) and that has fewer than 10^9 - 1 events (every event takes 1 ns).
+   Proved in Keypairs/SpecProofs.v by induction over the trace with an explicit relation between the
+   model state and the checker's bookkeeping (session map, spacing, latch, confirmed keys, sub-second
+   part of every age).  Hence: whenever the device agrees with the model (kind-1 comparison), the
+   property check cannot raise a false alarm, and every clause of [holdsb] is a theorem of the model. *)
+Theorem C07_model_satisfies_spec : forall evs,
+  (forall d, In (Tick d) evs -> d mod sec = 0) -> N.of_nat (length evs) + 1 < sec ->
   holdsb (model_trace init evs) = true.
+Proof. exact model_satisfies_spec. Qed.
+Print Assumptions C07_model_satisfies_spec.
 
 (* a key of exactly 180 s is no longer used for sending (>=) although it is still 179.99.. s old
    one nanosecond earlier: a trace with a tick that is not a whole number of seconds *)
@@ -241,6 +243,7 @@ Example C07_boundary_180 :
   holdsb (model_trace init (CompleteInitiator 7 ++ [Tick (179 * sec); Send])) = true.
 Proof. vm_compute. repeat split; reflexivity. Qed.
 
+(* redundant with the theorem above; kept as an evaluated cross-check of the explorer used by the thorough tier *)
 Theorem C07_model_satisfies_spec_depth4 : explore alphabet7 4 init sst0 = Some 16105.
 Proof. vm_compute. reflexivity. Qed.
 Print Assumptions C07_model_satisfies_spec_depth4.
